@@ -113,3 +113,31 @@ def _moment(prog):
 
 
 canary.register("C19", "linear", _moment, "NUM-MOMENT")
+
+
+def _norm_load(prog):
+    from .report import RuleResult
+    from .rules.c14 import _load_hook_findings
+
+    res = RuleResult("NORM-LOAD", "")
+    cls = prog.find_class("Norm", "nflows.transforms.canary")
+    hooks = _load_hook_findings(prog, cls, ["initialized", "shift"], res)
+    if not hooks or res.undecided:
+        raise RuntimeError("canary: load hook not analysed (%s)" % res.undecided[:1])
+    return res.findings
+
+
+# canaries/engine: a _load_from_state_dict that overwrites the saved flag (bad) / only fills an absent key (good)
+canary.register("C14", "engine", _norm_load, "NORM-LOAD")
+
+
+def _grad_where(prog):
+    from .rules.c16 import where_findings, where_sites
+
+    if not where_sites(prog):
+        raise RuntimeError("canary: no torch.where site seen")
+    return where_findings(prog)
+
+
+# canaries/engine: torch.where(x > 1, log(x) + 1, x) (bad) / with the log's argument clamped to >= 1 (good)
+canary.register("C16", "engine", _grad_where, "GRAD-WHERE")
